@@ -425,3 +425,35 @@ Definition ex_text_roundtrip :=
             (fun f => pref_name_ok "x" f eq_refl) (fun o => pref_name_ok "b" o eq_refl)
             (fun p => pref_name_ok "p" p eq_refl) (fun v => pref_name_ok "v" v eq_refl)
             (fun t => pref_name_ok "t" t eq_refl).
+
+(* ================================================================== groups whose items may follow each other without a
+   blank when the next item starts with a delimiter (the writer's "(and(forall ...") *)
+Fixpoint seps_ok2 (items : list (string * string)) : Prop :=
+  match items with
+  | [] => True
+  | (_, w) :: r => ws_str w = true /\ (forall x, dstart x = true -> dstart (w ++ (cat r ++ x)) = true) /\ seps_ok2 r
+  end.
+
+Lemma cat_lex2 items ss : Forall2 (fun it s => LX (fst it) s) items ss -> seps_ok2 items ->
+  forall top st rest, lex_go top st MWs (cat items ++ String ")" rest) = lex_go (rev ss ++ top) st MWs (String ")" rest).
+Proof.
+  induction 1 as [|[t w] s items ss Hx Hl IH]; intros Hs top st rest; [reflexivity|].
+  cbn [cat fst seps_ok2] in *. destruct Hs as (Hw & Hd & Hs').
+  rewrite !app_assoc_s. rewrite Hx by (apply Hd; reflexivity).
+  rewrite ws_skip by exact Hw. rewrite IH by exact Hs'. cbn [rev]. rewrite <- app_assoc. reflexivity.
+Qed.
+
+Lemma LX_tl2 items ss : Forall2 (fun it s => LX (fst it) s) items ss -> seps_ok2 items -> LX (tl items) (SList ss).
+Proof.
+  intros F Hs top st rest Hr. unfold tl. cbn [append]. rewrite lex_open, app_assoc_s. cbn [append].
+  rewrite (cat_lex2 items ss F Hs), lex_close, app_nil_r, rev_involutive. reflexivity.
+Qed.
+
+(* the old, syntactic side condition implies the new one *)
+Lemma seps_ok_2 items : seps_ok items -> seps_ok2 items.
+Proof.
+  induction items as [|[t w] r IH]; [auto|]. cbn [seps_ok seps_ok2]. intros (Hw & Hne & Hr). split; [exact Hw|].
+  split; [|apply IH; exact Hr]. intros x Hx. destruct w as [|c w'].
+  - destruct Hne as [->|Hne]; [exact Hx|congruence].
+  - cbn [ws_str all_c] in Hw. apply andb_true_iff in Hw as [Hc _]. cbn [append dstart]. unfold is_delim. rewrite Hc. reflexivity.
+Qed.
